@@ -27,6 +27,7 @@ structure TablesOk (T : Tables) : Prop where
   importsStrict : T.importsStrict = true
   importsCopied : T.importsCopied = true
   sigStrict : T.sigStrict = true
+  cmpStrict : T.cmpStrict = true
 
 /-- the symbol context describes the Python environment: every bound local's symbolic value evaluates
 (at the argument valuation `ρ`) to its current Python value -/
